@@ -59,6 +59,39 @@ def canon_compares(tree: ast.AST) -> int:
     return flips
 
 
+def split_chained_compares(tree: ast.AST) -> int:
+    """`a < b <= c` with pure middle operands (names, constants, attributes) is rewritten to
+    `(a < b) and (b <= c)`: a chained comparison and the conjunction it abbreviates are one
+    program to the rules (the middle operand has no side effect, so evaluating it twice is
+    the same)."""
+    import copy as _copy
+    n = 0
+
+    class T(ast.NodeTransformer):
+        def visit_Compare(self, node):
+            nonlocal n
+            self.generic_visit(node)
+            if len(node.ops) < 2:
+                return node
+            mids = node.comparators[:-1]
+            if not all(isinstance(m, (ast.Name, ast.Constant, ast.Attribute)) for m in mids):
+                return node
+            parts = []
+            left = node.left
+            for op, right in zip(node.ops, node.comparators):
+                c = ast.Compare(left=_copy.deepcopy(left), ops=[op], comparators=[_copy.deepcopy(right)])
+                ast.copy_location(c, node)
+                parts.append(c)
+                left = right
+            n += 1
+            b = ast.BoolOp(op=ast.And(), values=parts)
+            return ast.copy_location(b, node)
+
+    T().visit(tree)
+    ast.fix_missing_locations(tree)
+    return n
+
+
 def _is_boolish(e) -> bool:
     return isinstance(e, (ast.BoolOp, ast.Compare)) or (isinstance(e, ast.UnaryOp) and isinstance(e.op, ast.Not))
 
@@ -182,6 +215,7 @@ class Tree:
                 except (SyntaxError, UnicodeDecodeError) as exc:
                     raise AnalysisError(f"cannot parse {rel}: {exc}") from exc
                 if os.environ.get("SA_NO_CANON") != "1":
+                    split_chained_compares(tree)
                     inline_condition_temps(tree)
                     canon_compares(tree)
                 mod = Module(rel, path, src, tree, sha)
@@ -233,8 +267,8 @@ class Tree:
                 if nm not in table or any(k.arg is None for k in c.keywords):
                     continue
                 ps, is_method = table[nm]
-                if is_method != isinstance(c.func, ast.Attribute):
-                    continue
+                if is_method and not isinstance(c.func, ast.Attribute):
+                    continue  # a bound method needs a receiver; static / module functions may be called either way
                 kws = {k.arg: k for k in c.keywords}
                 if not set(kws) <= set(ps):
                     continue
